@@ -272,14 +272,22 @@ CONTRACTS = {
     theory=['listsets'],
     requires=['sizes_ok(self)', 'pairs_ok(self)'],
     defs={'inrow': (['r', 'i', 'upto'], 'exists(c, 0, upto, self.pairs[i][c] == r)'),
-          'seen': (['r', 'rows', 'upto'], 'exists(i, 0, rows, inrow(r, i, len(self.pairs[i]))) or inrow(r, rows, upto)')},
+          'seen': (['r', 'rows', 'upto'], 'exists(i, 0, rows, inrow(r, i, len(self.pairs[i]))) or inrow(r, rows, upto)'),
+          'LS': (['j'], 'wsum(self.rank_lists[j])'),
+          'PS': (['j', 'rows', 'upto'], 'Sum(i, rows, Sum(c, len(self.pairs[i]), ite(self.pairs[i][c].rank_student == j + 1, W(self.pairs[i][c]), 0)))'
+                                        ' + Sum(c, upto, ite(self.pairs[rows][c].rank_student == j + 1, W(self.pairs[rows][c]), 0))')},
     loops={0: dict(invariant=['is_max_rank(self, len(self.rank_lists))',
-                              'forall(k, 0, len(self.rank_lists), forall(r, (ref(r) in elems(self.rank_lists[k])) == (seen(ref(r), _k, 0) and ref(r).rank_student == k + 1)))']),
+                              'forall(k, 0, len(self.rank_lists), forall(r, (ref(r) in elems(self.rank_lists[k])) == (seen(ref(r), _k, 0) and ref(r).rank_student == k + 1)))',
+                              ('list-sums', 'forall(j, 0, len(self.rank_lists), LS(j) == PS(j, _k, 0))')]),
            1: dict(invariant=['is_max_rank(self, len(self.rank_lists))',
-                              'forall(k, 0, len(self.rank_lists), forall(r, (ref(r) in elems(self.rank_lists[k])) == (seen(ref(r), _k0, _k) and ref(r).rank_student == k + 1)))'])},
+                              'forall(k, 0, len(self.rank_lists), forall(r, (ref(r) in elems(self.rank_lists[k])) == (seen(ref(r), _k0, _k) and ref(r).rank_student == k + 1)))',
+                              ('list-sums', 'forall(j, 0, len(self.rank_lists), LS(j) == PS(j, _k0, _k))')])},
+    use_lemmas={'loop1.body_end': [('SUM/ext', {'f': 'w_terms(self.rank_lists[j], len(prev(self.rank_lists)[j]))', 'g': 'w_terms(prev(self.rank_lists)[j], len(prev(self.rank_lists)[j]))',
+                                                'n': 'len(prev(self.rank_lists)[j])'}, 'forall:j')]},
     modifies=['self.rank_lists'],
     ensures=[('one-list-per-rank', 'is_max_rank(self, len(self.rank_lists))'),
-             ('rank-list-holds-exactly-the-pairs-of-that-rank', 'forall(k, 0, len(self.rank_lists), forall(r, (ref(r) in elems(self.rank_lists[k])) == (seen(ref(r), len(self.pairs), 0) and ref(r).rank_student == k + 1)))')]),
+             ('rank-list-holds-exactly-the-pairs-of-that-rank', 'forall(k, 0, len(self.rank_lists), forall(r, (ref(r) in elems(self.rank_lists[k])) == (seen(ref(r), len(self.pairs), 0) and ref(r).rank_student == k + 1)))'),
+             ('sum-over-each-list-is-the-sum-over-the-pairs-with-that-rank-for-every-weight', 'forall(j, 0, len(self.rank_lists), LS(j) == PS(j, len(self.pairs), 0))')]),
  M + 'set_project_lists': dict(
     theory=['listsets'],
     requires=['sizes_ok(self)', 'pairs_ok(self)'],
